@@ -33,12 +33,25 @@ class LenNode(UserNode):
         return len(self.children)
 
 
+class EqUser(UserNode):
+    """value equality: any two nodes compare equal"""
+
+    def __eq__(self, other):
+        return isinstance(other, EqUser)
+
+    def __ne__(self, other):
+        return not isinstance(other, EqUser)
+
+    def __hash__(self):
+        return 2
+
+
 class FalsyAny(AnyNode):
     def __bool__(self):
         return False
 
 
-CLS = {"anynode": AnyNode, "node": Node, "mixin": UserNode, "strict": StrictNode, "lenmixin": LenNode, "falsyany": FalsyAny}
+CLS = {"anynode": AnyNode, "node": Node, "mixin": UserNode, "strict": StrictNode, "lenmixin": LenNode, "falsyany": FalsyAny, "eqmixin": EqUser}
 def bookkeeping(key):
     """the mixins' own (name-mangled) link attributes, whatever they are called in the tree under test"""
     return key.startswith("_NodeMixin__") or key.startswith("_LightNodeMixin__")
